@@ -276,6 +276,8 @@ type Config struct {
 	Scratch   string
 	KeepTrace bool
 	MockPV    bool
+	// GossipSleepMs, if > 0, replaces the reactor's per-peer gossip / maj23-query sleep (milliseconds).
+	GossipSleepMs int
 	// Real-application mode: the validator keys, genesis document and per-node parts come from the caller.
 	Keys     []crypto.PrivKeyEd25519
 	GenDoc   *types.GenesisDoc
@@ -379,7 +381,13 @@ func (s *Sim) newNodeFrom(id int, np *NodeParts) (*Node, error) {
 	if np.EvPool != nil {
 		ep = np.EvPool
 	}
-	n.CS = cs.NewConsensusState(consensusConfig(), status.Copy(), blockExec, np.App, mp, ep)
+	cc := consensusConfig()
+	if s.Conf.GossipSleepMs > 0 {
+		// lanes that run the reactor's per-peer gossip goroutines want them to iterate quickly
+		cc.PeerGossipSleepDuration = s.Conf.GossipSleepMs
+		cc.PeerQueryMaj23SleepDuration = s.Conf.GossipSleepMs
+	}
+	n.CS = cs.NewConsensusState(cc, status.Copy(), blockExec, np.App, mp, ep)
 	eb := types.NewEventBus()
 	if err := eb.Start(); err != nil {
 		return nil, err
